@@ -111,6 +111,16 @@ CANARIES = [
     ("mem-bfm-no-source-check", "src/algo/bellman_ford_moore.rs", '        assert!(s < order, "The source vertex is not in the digraph.");\n\n', "", ["C13", "C07"]),
     ("mem-outneighbors-no-assert", AL, '        assert!(u < self.order(), "u = {u} isn\'t in the digraph");\n\n        unsafe { self.arcs.get_unchecked(u).iter().copied() }', "        unsafe { self.arcs.get_unchecked(u).iter().copied() }", ["C13"]),
     ("leak-no-release", AM, "            let mut lhs_vec = ManuallyDrop::into_inner(lhs_vec);\n", "            let mut lhs_vec = ManuallyDrop::into_inner(lhs_vec.clone());\n", ["C13"]),
+    ("narrow-heap-key", "src/algo/dijkstra.rs", "                    self.heap.push((Reverse(w_next), v));",
+     "                    self.heap.push((Reverse(w_next as u32 as usize), v));", ["C03"]),
+    ("shift-by-width", AX, "                self.current_bits &= self.current_bits - 1;",
+     "                self.current_bits = (self.current_bits >> bit >> 1) << (bit + 1);", ["C01", "C02"]),
+    ("ops-bulk-write", EL, "        for &(u, v) in &other.arcs {\n            union.add_arc(u, v);\n        }\n",
+     "        union.arcs.extend(other.arcs.iter().copied());\n", ["C11"]),
+    ("fw-diagonal-domain", "src/algo/floyd_warshall.rs", "        for i in 0..self.digraph.order() {", "        for i in 0..self.digraph.order() - 1 {", ["C08"]),
+    ("walk-min-length", EL, "        walk.len() > 1\n            && walk", "        walk.len() != 1\n            && walk", ["C02"]),
+    ("unit-interval-mul", "src/gen/prng/xoshiro256_star_star.rs", "        f64::from_bits((exponent << 52) | mantissa) - 1.0",
+     "        let _ = (exponent, mantissa);\n\n        next_u64 as f64 * (1.0 / 18_446_744_073_709_551_616.0)", ["C15"]),
     ("fields-manual-eq", AX, None, None, ["C20"]),
     ("pure-write-through-shared", AL, None, None, ["C02"]),
     ("nondet-hashset", AM, None, None, ["C15", "C17"]),
